@@ -160,6 +160,17 @@ def check_reorder(name, kw, cfg, ops, crumbfn=None):
                 pa.align_particles()
             elif n > 1:
                 pa.remove_particles([n - 1])
+        elif op == 'addprop':
+            # properties created after the object (and a first re-ordering)
+            # exist: they belong to the particles like any other
+            for pa in pas:
+                if 'late2' in pa.properties:
+                    continue
+                u = pa.get('uid', only_real_particles=False)
+                pa.add_property('late2', stride=2, data=np.array(
+                    [[v * 11 + 1, v * 11 + 2] for v in u]).ravel())
+                pa.add_property('latei', type='int',
+                                data=(u * 13).astype(np.int32))
         elif op == 'move':
             for a, pa in enumerate(pas):
                 n = pa.get_number_of_particles()
@@ -183,6 +194,8 @@ HISTORIES = [
     ('move', 'update', 'reorder0', 'reorder1', 'update'),
     ('reorder1', 'update', 'move', 'update', 'reorder1', 'update'),
     ('grow', 'update', 'reorder0', 'reorder1', 'update'),
+    ('reorder0', 'reorder1', 'update', 'addprop', 'move', 'update',
+     'reorder0', 'reorder1', 'update'),
     ('shrink', 'update', 'reorder0', 'update', 'grow', 'update', 'reorder0',
      'update'),
 ]
@@ -267,7 +280,8 @@ def run(ctx):
     shutil.rmtree(CRUMB_DIR, ignore_errors=True)
     cfgs = configs(ctx.thorough, ctx.seed)
     hists = HISTORIES if ctx.thorough else HISTORIES[:3] + \
-        [HISTORIES[3 + ctx.seed % 2], HISTORIES[5 + ctx.seed % 2]]
+        [HISTORIES[3 + ctx.seed % 2], HISTORIES[5 if ctx.seed % 2 == 0 else 7],
+         HISTORIES[6]]
     chunk = max(10, len(cfgs) // (ctx.ncpu * 8))
     jobs = [cfgs[i:i + chunk] for i in range(0, len(cfgs), chunk)]
     viol = {}
